@@ -130,3 +130,21 @@ Definition render_ans (a : option acct_line) : string := match a with None => ""
 (* what the text says: the state word and the exit code *)
 Definition ans_of (a : option acct_line) : sacct_ans :=
   match a with None => SaNone | Some l => SaLine (str_of (al_state l)) (nat_of_digits (al_code l)) end.
+
+(* ---- the option forms SlurmWorker.run handles (everything else is the excluded class of C28_options_general) ----
+   a token is fine for option k unless it is the attached short form (-Xvalue), the bare long name (--long, value
+   in the next token), has the short name as a proper suffix (x-J) or contains "--long=" other than at its start *)
+Definition ends_with (suf s : string) : bool := is_prefix Ascii.eqb (rev (la_of suf)) (rev (la_of s)).
+Fixpoint inside_l (rinner l acc : chars) : bool :=      (* l = u ++ inner ++ c :: v, scanning with the reversed prefix *)
+  match l with
+  | [] => false
+  | c :: r => is_prefix Ascii.eqb rinner acc || inside_l rinner r (c :: acc)
+  end.
+Definition inside (inner s : string) : bool := inside_l (rev (la_of inner)) (la_of s) [].
+Definition attached (k : okind) (t : string) : bool := starts_with (short_of k) t && Nat.ltb 2 (String.length t).
+Definition form_ok (k : okind) (t : string) : bool :=
+  negb (attached k t) && negb (String.eqb t (long_bare k)) &&
+  implb (ends_with (short_of k) t) (String.eqb t (short_of k)) &&
+  implb (inside (long_of k) t) (starts_with (long_of k) t).
+Definition forms_ok (toks : list string) : bool :=
+  forallb (fun k => forallb (form_ok k) toks) [KName; KOut; KErr].
